@@ -111,10 +111,14 @@ func (m *spaceMon) rangesInv(rs [][2]int64, db int64) {
 }
 
 // onRecv: the call ReceivedPacket(p) returned isNew; before/after are the stored ranges.
-func (m *spaceMon) onRecv(p int64, isNew bool, before, after [][2]int64, db int64, t int64) {
+func (m *spaceMon) onRecv(p int64, isNew bool, before, after [][2]int64, db int64, t int64, dbAfter int64) {
 	wasDup := p < db || covered(before, p)
-	if m.recv[p] && (p < m.forget || p > m.w) && isNew {
-		m.fail("recvph/dup-accepted", fmt.Sprintf("%s: packet %d was received before and is within tracked history, but was accepted as new", m.name, p))
+	if m.recv[p] && isNew {
+		key := "recvph/dup-after-trim" // only possible for numbers the range limit has dropped
+		if p < m.forget || p > m.w {
+			key = "recvph/dup-accepted"
+		}
+		m.fail(key, fmt.Sprintf("%s: packet %d was received before, but was accepted as new (RFC 9000 12.3: a packet must be discarded unless it is certain that its number was not processed before)", m.name, p))
 	}
 	if isNew == wasDup {
 		m.fail("recvph/isnew-wrong", fmt.Sprintf("%s: ReceivedPacket(%d) isNew=%v but history said duplicate=%v", m.name, p, isNew, wasDup))
@@ -148,6 +152,9 @@ func (m *spaceMon) onRecv(p int64, isNew bool, before, after [][2]int64, db int6
 		if before[0][1] > m.w {
 			m.w = before[0][1]
 		}
+		if dbAfter <= before[0][1] {
+			m.fail("recvph/dup-after-trim", fmt.Sprintf("%s: receiving %d dropped the range %v from the history but the duplicate threshold stays at %d: its numbers will be accepted again", m.name, p, before[0], dbAfter))
+		}
 	}
 	if isNew && !as[p] {
 		if len(before) < rphMaxRanges || p > before[0][0] {
@@ -157,8 +164,11 @@ func (m *spaceMon) onRecv(p int64, isNew bool, before, after [][2]int64, db int6
 		if p > m.w {
 			m.w = p
 		}
+		if dbAfter <= p {
+			m.fail("recvph/dup-after-trim", fmt.Sprintf("%s: new packet %d was dropped from the history at once but the duplicate threshold stays at %d: it will be accepted again", m.name, p, dbAfter))
+		}
 	}
-	m.rangesInv(after, db)
+	m.rangesInv(after, dbAfter)
 }
 
 // onDelete: DeleteBelow(p) / IgnoreBelow(p) took effect.
@@ -182,13 +192,17 @@ func (m *spaceMon) onDelete(p int64, before, after [][2]int64, dbAfter int64) {
 
 // onIsDup: IsPotentiallyDuplicate(q) returned d.
 func (m *spaceMon) onIsDup(q int64, d bool) {
-	if m.recv[q] && (q < m.forget || q > m.w) && !d {
-		m.fail("recvph/dup-missed", fmt.Sprintf("%s: %d was received before and lies within tracked history, IsPotentiallyDuplicate=false", m.name, q))
+	if m.recv[q] && !d {
+		key := "recvph/dup-after-trim"
+		if q < m.forget || q > m.w {
+			key = "recvph/dup-missed"
+		}
+		m.fail(key, fmt.Sprintf("%s: %d was received before, IsPotentiallyDuplicate=false", m.name, q))
 	}
 	if q < m.forget && !d {
 		m.fail("recvph/dup-missed", fmt.Sprintf("%s: %d is below the forget threshold %d, IsPotentiallyDuplicate=false", m.name, q, m.forget))
 	}
-	if !m.recv[q] && q >= m.forget && d {
+	if !m.recv[q] && q >= m.forget && q > m.w && d {
 		m.fail("recvph/dup-false-positive", fmt.Sprintf("%s: %d was never received and is not below the forget threshold, IsPotentiallyDuplicate=true", m.name, q))
 	}
 }
@@ -279,7 +293,7 @@ func runHistCase(w *bufio.Writer, ops []histOp, st *rphStats) {
 				db := h.DeletedBelow()
 				isNew := h.ReceivedPacket(o.p)
 				log = append(log, fmt.Sprintf("Recv(%d)=%v", o.p, isNew))
-				m.onRecv(o.p, isNew, before, h.Ranges(), db, 0)
+				m.onRecv(o.p, isNew, before, h.Ranges(), db, 0, h.DeletedBelow())
 				terms = append(terms, u.Pair(u.App("HRecv", u.Z(o.p)), u.App("HB", u.B(isNew))))
 				if !isNew {
 					nontrivial = true
@@ -288,7 +302,7 @@ func runHistCase(w *bufio.Writer, ops []histOp, st *rphStats) {
 				h.DeleteBelow(o.p)
 				log = append(log, fmt.Sprintf("DeleteBelow(%d)", o.p))
 				m.onDelete(o.p, before, h.Ranges(), h.DeletedBelow())
-				if h.DeletedBelow() != m.forget {
+				if h.DeletedBelow() < m.forget || (h.DeletedBelow() != m.forget && h.DeletedBelow() != m.w+1) {
 					fail("recvph/delete-wrong", fmt.Sprintf("deletedBelow=%d after DeleteBelow up to %d", h.DeletedBelow(), m.forget))
 				}
 				terms = append(terms, u.Pair(u.App("HDel", u.Z(o.p)), "HU"))
@@ -706,7 +720,7 @@ func (x *handlerRunner) do(o hOp) (out string, dupFlag bool) {
 		if sp >= 0 && !(x.dropped[sp]) && out != "0rtt" {
 			m := x.mon[sp]
 			b, a := snapSpace(before, sp), snapSpace(after, sp)
-			m.onRecv(o.pn, err == nil, b.Ranges, a.Ranges, b.DeletedBelow, o.t)
+			m.onRecv(o.pn, err == nil, b.Ranges, a.Ranges, b.DeletedBelow, o.t, a.DeletedBelow)
 			if err == nil {
 				switch protocol.ECN(o.ecn) {
 				case protocol.ECT0:
